@@ -356,6 +356,37 @@ def encoders(ctx):
         ctx.require(any(s[1] == wv for s in firsts), q, 'witness version %d is not the first 5-bit value of the data part' % wv, fn)
 
 
+@PROP.obligation('C04.compressed-form', canaries=[
+    mut.replace_expr('keys', 'Key.address', 'self.public_compressed_byte', 'self.public_byte', 'compressed address built from the stored (possibly uncompressed) encoding'),
+])
+def compressed_form(ctx):
+    """Key.address evaluated for the four combinations (key stored compressed / uncompressed) x (compressed argument True / False): the
+    bytes hashed into the address are the compressed encoding when a compressed address is asked for and the uncompressed encoding
+    otherwise - never `public_byte`, whose form depends on how the key was imported."""
+    q = 'keys:Key.address'
+    fn = ctx.repo.func(q)
+    for stored in (True, False):
+        for asked in (True, False, None):
+            built = []
+
+            def h_address(interp, args, kwargs, st, node, built=built):
+                built.append(term(args[0]) if args else term(kwargs.get('data')))
+                return NotImplemented
+            it = Interp(ctx.repo, 'keys', hooks={'Address': h_address}, self_cls='keys:Key')
+            st = State()
+            st.heap[('attr', SELF, 'compressed')] = stored
+            st.heap[('attr', SELF, '_address_obj')] = None
+            it.run_function(fn, {'self': S(SELF), 'compressed': asked, 'prefix': None, 'script_type': None, 'encoding': 'base58'}, st=st)
+            if len(built) != 1:
+                ctx.undecided('Key.address: Address construction not reached exactly once for stored=%s asked=%s' % (stored, asked))
+            want_c = asked if asked is not None else stored
+            exp = ('attr', SELF, 'public_compressed_byte') if want_c else ('attr', SELF, 'public_uncompressed_byte')
+            ok = built[0] == exp or (built[0] == ('attr', SELF, 'public_byte') and stored == want_c and False)
+            ctx.saw('key stored %s, address(compressed=%s) hashes %s' % ('compressed' if stored else 'uncompressed', asked, show(built[0])))
+            ctx.require(ok, q, 'key stored %s, address(compressed=%s) hashes %s, expected %s' % ('compressed' if stored else 'uncompressed', asked, show(built[0]), show(exp)), fn,
+                        'the address of the other encoding of the key is returned')
+
+
 @PROP.obligation('C04.address-cache', canaries=[
     mut.replace_expr('keys', 'Key.address', 'self._address_obj.network == self.network', 'True', 'Key.address: cached address reused across networks'),
     mut.replace_expr('keys', 'Key.address', 'self._address_obj.data_bytes == data', 'True', 'Key.address: cached address reused for the other compression'),
